@@ -931,11 +931,46 @@ func (ev *evaluator) evalCall(x *ECall) SV {
 			return SV{slArr(t), nil}
 		}
 		return SV{slOff(t), nil}
+	case "trustedHeadOf":
+		// trustedHeadOf(opts): the header carried by a header.WithTrustedHead option in the variadic list
+		// (zero header if there is none). Options are closure values; only literal lists built at the call
+		// site are understood, anything else is an unknown header.
+		a := ev.eval(x.Args[0])
+		switch av := a.V.(type) {
+		case *ArrVal:
+			for _, e := range av.Elems {
+				if cv, ok := e.(*ClosureVal); ok && cv.Fn != nil && strings.HasPrefix(cv.Fn.Name(), "WithTrustedHead$") && len(cv.Bindings) == 1 {
+					v := ev.fc.load(ev.curState(), cv.Bindings[0], cv.Fn.FreeVars[0].Type().(*types.Pointer).Elem(), nil)
+					if vt, ok := v.(Term); ok && vt.Sort == SHdr {
+						return SV{vt, nil}
+					}
+				}
+			}
+			return SV{T(SHdr, "zeroHdr"), nil}
+		case Term:
+			if av.Sort == SSlice {
+				ev.fc.decls.fun("optsTrusted", []string{SSlice}, SHdr)
+				return SV{tIte(tEq(slLen(av), intLit(0)), T(SHdr, "zeroHdr"), app(SHdr, "optsTrusted", av)), nil}
+			}
+		case nil:
+			return SV{T(SHdr, "zeroHdr"), nil}
+		}
+		ev.fc.nfresh++
+		return SV{ev.fc.decls.constant(fmt.Sprintf("unknownTrusted_%d", ev.fc.nfresh), SHdr), nil}
 	case "called":
 		// called(g): the call whose result is bound to ghost g was reached (and returned) on this path
 		id2, ok := x.Args[0].(*EIdent)
 		if !ok {
 			ev.fail("called() takes a ghost name")
+		}
+		if ev.env.calleeFn != nil {
+			// a callee's contract evaluated at a call site: whether its internal call happened is unknown
+			if sv, ok := ev.env.names["called:"+id2.Name]; ok {
+				return sv
+			}
+			sv := SV{ev.fc.fresh("cg_called_"+id2.Name, SBool), boolT}
+			ev.env.names["called:"+id2.Name] = sv
+			return sv
 		}
 		key, ok := ev.fc.ghostKeys[id2.Name]
 		if !ok {
